@@ -12,7 +12,8 @@
       and an overflowing grant (window.add) ends the connection.
   rcv dir=out|in steps=<tok,…>
       the REAL channel receives: d<len> e<code>.<len> b<lenfield>.<actual> D<count>x<len> (peer packets), r<n> s<n>
-      (application reads stdout / stderr with an n-byte buffer). trace: one segment per step, `|`-separated:
+      (application reads stdout / stderr with an n-byte buffer), R<n> (read stdout; the peer uses the whole new grant
+      synchronously from inside the writePacket of the window adjust: checks that advertise+credit is atomic). trace: one segment per step, `|`-separated:
       `-`, `A<n>` (window adjust on the wire), `R<k>[!]`, `R<k>,A<n>`, `X` (connection torn down; trace ends).
       The receiver model (`handleData`, `readExt`, `adjustWindow`) is deterministic: accepted iff equal.
 -/
@@ -149,6 +150,8 @@ inductive RTok
   | data (code lenField actual : Nat)
   | burst (count len : Nat)
   | read (code n : Nat)
+  | readRefill (n : Nat)     -- Read(n) on stdout; the peer answers the window adjust AT ONCE (from inside the mux's
+                             -- own writePacket of that adjust) with data packets that use the whole new grant
 
 def parseRTok (t : String) : Option RTok :=
   match t.toList with
@@ -162,6 +165,7 @@ def parseRTok (t : String) : Option RTok :=
   | 'D' :: r => match (String.ofList r).splitOn "x" with
     | [c, l] => do let c ← c.toNat?; let l ← l.toNat?; pure (.burst c l)
     | _ => none
+  | 'R' :: r => (String.ofList r).toNat?.map (.readRefill ·)
   | 'r' :: r => (String.ofList r).toNat?.map (.read 0 ·)
   | 's' :: r => (String.ofList r).toNat?.map (.read 1 ·)
   | _ => none
@@ -174,6 +178,16 @@ def burst : Nat → Rcv → Nat → Except DataErr Rcv
   | c+1, r, len => match handleData r 0 len len with
     | .error e => .error e
     | .ok (r', _) => burst c r' len
+
+/-- the peer's immediate refill: `adj` bytes of plain data in packets of at most maxIncoming -/
+def refill : Nat → Rcv → Nat → Except DataErr Rcv
+  | 0, r, _ => .ok r
+  | fuel+1, r, left =>
+    if left = 0 then .ok r else
+    let l := if left > r.maxIncoming then r.maxIncoming else left
+    match handleData r 0 l l with
+    | .error e => .error e
+    | .ok (r', _) => refill fuel r' (left - l)
 
 /-- expected trace segments; `none` = the op is not executable (a read would block) -/
 def rcvExpect : List RTok → Rcv → List String → Option (List String)
@@ -191,6 +205,14 @@ def rcvExpect : List RTok → Rcv → List String → Option (List String)
     if n = 0 || avail = 0 then none else
     let (r', k, adj) := readExt r code n
     rcvExpect rest r' ((if adj = 0 then s!"R{k}" else s!"R{k},A{adj}") :: acc)
+  | .readRefill n :: rest, r, acc =>
+    if n = 0 || r.pending = 0 then none else
+    let (r', k, adj) := readExt r 0 n
+    let seg := if adj = 0 then s!"R{k}" else s!"R{k},A{adj}"
+    -- adjustWindow is ONE step: myWindow is already credited when the adjust is on the wire, so the refill fits
+    match refill 100 r' adj with
+    | .error _ => some (("X" :: seg :: acc).reverse)
+    | .ok r'' => rcvExpect rest r'' (seg :: acc)
 
 def rcvHandle (o : Op) (tr : String) : String :=
   match o.get? "steps" with
@@ -203,7 +225,11 @@ def rcvHandle (o : Op) (tr : String) : String :=
       | some want =>
         let w := "|".intercalate want
         if hasSub tr "!" then "violation:stream_integrity (bytes read differ from bytes sent)"
-        else if tr == w then "ok" else s!"reject:want={w}"
+        else if tr == w then "ok"
+        -- the real side tore the connection down on a packet the receiver model accepts (a compliant peer)
+        else if tr.endsWith "X" && !(w.endsWith "X") && w.startsWith ((tr.dropEnd 1).toString) then
+          s!"violation:receiver_never_complains (the receiver rejected data that fits the window it had advertised; want={w.take 120}…)"
+        else s!"reject:want={w}"
   | none => "bad-op"
 
 /-! ## pair: two real muxes; events D<code>.<len> (A→B data) and J<n> (B→A window adjust) in writePacket order -/
